@@ -1,10 +1,16 @@
 package exec
 
 import (
+	"context"
+
+	"github.com/streamingfast/substreams/metrics"
 	pbsubstreams "github.com/streamingfast/substreams/pb/sf/substreams/v1"
+	"github.com/streamingfast/substreams/reqctx"
+	"github.com/streamingfast/substreams/storage/execout"
 	"github.com/streamingfast/substreams/storage/store"
 	sym "github.com/streamingfast/substreams/zz_verifsym"
 	"go.uber.org/zap"
+	"google.golang.org/protobuf/proto"
 )
 
 var c09Keys = []string{"a", "ab", "b"}
@@ -64,8 +70,9 @@ func VerifC09Executor() {
 	} else {
 		a, b = cfg.NewFullKV(zap.NewNop()), cfg.NewFullKV(zap.NewNop())
 	}
-	orig := &StoreModuleExecutor{outputStore: a}
-	cached := &StoreModuleExecutor{outputStore: b}
+	ctx := reqctx.WithReqStats(context.Background(), metrics.NewReqStats(&metrics.Config{}, zap.NewNop()))
+	orig := NewStoreModuleExecutor(NewBaseExecutor(ctx, "s", 0, nil, false, nil, nil, "", nil), a.(store.DeltaAccessor))
+	cached := NewStoreModuleExecutor(NewBaseExecutor(ctx, "s", 0, nil, false, nil, nil, "", nil), b.(store.DeltaAccessor))
 
 	for blk := 0; blk < nBlocks; blk++ {
 		n := 1 + sym.Choice("nops", maxOps)
@@ -81,17 +88,47 @@ func VerifC09Executor() {
 			}
 			c09Record(a, appendPolicy, o)
 		}
-		_, logForFiles, out, err := orig.wrapDeltasAndOps()
+		liveBytes, logForFiles, out, err := orig.wrapDeltasAndOps()
 		if err != nil {
 			sym.Unreachable("original-execution-ok")
 			return
 		}
-		if err := cached.applyCachedOutput(logForFiles); err != nil {
+		// the cached branch of RunModule: the block's entry in the cached-output file is the log
+		buf, err := execout.NewBuffer("sf.test.Block", nil, &pbsubstreams.Clock{Number: uint64(blk + 1), Id: "b"})
+		if err != nil {
+			sym.Unreachable("buffer-ok")
+			return
+		}
+		buf.Set("s", logForFiles)
+		replayOut, replayBytes, _, skipped, err := RunModule(ctx, cached, buf)
+		if err != nil || skipped {
 			sym.Unreachable("replay-ok")
 			return
 		}
 		sym.Reach("replayed")
 		da, db := out.GetStoreDeltas().GetStoreDeltas(), b.GetDeltas()
+		if !partial {
+			// what downstream modules and the client get from the cached branch: the same deltas,
+			// as a message and as bytes
+			if replayOut == nil {
+				sym.Unreachable("cached-branch-returns-the-store-deltas")
+				return
+			}
+			dr := replayOut.GetStoreDeltas().GetStoreDeltas()
+			sym.Assert(len(dr) == len(da), "cached-branch-same-delta-count")
+			liveMsg, replayMsg := &pbsubstreams.StoreDeltas{}, &pbsubstreams.StoreDeltas{}
+			if proto.Unmarshal(liveBytes, liveMsg) != nil || proto.Unmarshal(replayBytes, replayMsg) != nil {
+				sym.Unreachable("delta-bytes-decode")
+				return
+			}
+			sym.Assert(len(liveMsg.StoreDeltas) == len(da), "live-delta-bytes-hold-the-deltas")
+			sym.Assert(len(replayMsg.StoreDeltas) == len(da), "cached-branch-delta-bytes-hold-the-deltas")
+			if len(replayMsg.StoreDeltas) == len(da) {
+				for i := range da {
+					sym.Assert(replayMsg.StoreDeltas[i].Key == da[i].Key && replayMsg.StoreDeltas[i].Operation == da[i].Operation && replayMsg.StoreDeltas[i].Ordinal == da[i].Ordinal, "cached-branch-delta-bytes-same-deltas")
+				}
+			}
+		}
 		sym.Assert(len(da) == len(db), "replayed-log-same-delta-count")
 		if len(da) == len(db) {
 			for i := range da {
